@@ -149,6 +149,9 @@ def decide(prop, tier, seed, jobs_n, only=None, verbose=False):
                 r["fn"], json.dumps(r["shard"]), r["status"], (r.get("message") or "")[:300]))
 
     for r in main:
+        for q in (r.get("queries") or [])[:2]:
+            if len(samples) < 12:
+                samples.append({"harness": r.get("fn"), "query": q})
         st = r["status"]
         if st == "confirmed":
             continue
@@ -283,7 +286,7 @@ def selftest():
     n = ch_models.selftest()
     print("ch_models: %d differential cases ok" % n)
     ok = True
-    for name in ("vkit.bvsym", "vkit.strict", "vkit.refserver", "vkit.ilv"):
+    for name in ("vkit.bvsym", "harness.C14", "vkit.strict", "vkit.refserver", "vkit.ilv"):
         try:
             m = importlib.import_module(name)
         except ModuleNotFoundError:
